@@ -4,6 +4,7 @@ CONSTANTS
   MaxR = 1
   Blocks = {"A","B"}
   MaxCrash = 1
+  Conc = FALSE
   MaxFail = 1
 VIEW view
 INVARIANTS TypeOK DiskCoversReleased MemIsDisk MainIsWhole
